@@ -474,6 +474,47 @@ func Run(c *gen.Ctx) error {
 		if err != nil {
 			return err
 		}
+		// several _entities requests at the same time on one executable schema: each must be answered as it is alone
+		{
+			var batch []xeng.Case
+			for q := 0; q < 16; q++ {
+				var reps []any
+				for i := 0; i < 3+q%5; i++ {
+					tn := []string{"Item", "User", "Item"}[(q+i)%3]
+					reps = append(reps, map[string]any{"__typename": tn, "id": fmt.Sprintf("r%d-%d", q, i)})
+				}
+				batch = append(batch, xeng.Case{ID: q, Query: Query, Variables: map[string]any{"reps": reps}, Oracle: xeng.NewOracle()})
+			}
+			rounds := 60
+			if c.Thorough() {
+				rounds = 1000
+			}
+			bres, err := xeng.RunAll(b.b.Bin, []xeng.Case{{ID: 1, Batch: batch, Rounds: rounds}})
+			if err != nil {
+				return err
+			}
+			if bres[0].Crashed {
+				meta.Direct = append(meta.Direct, gen.DirectFinding{Signature: "probe-crashed-with-requests-in-flight-together",
+					What: fmt.Sprintf("config %s: the probe process died while 16 _entities requests were executed at the same time", b.cfg.Name), Replay: b.cfg.Name})
+			}
+			for k, d := range bres[0].BatchDiffs {
+				if k >= 2 {
+					break
+				}
+				got, want := "", ""
+				for _, x := range d.Got {
+					got += string(x)
+				}
+				for _, x := range d.Want {
+					want += string(x)
+				}
+				meta.Direct = append(meta.Direct, gen.DirectFinding{Signature: "entities-depend-on-requests-in-flight-beside-them",
+					What: fmt.Sprintf("config %s, 16 _entities requests executed at the same time (round %d): the request for %v was answered %.600s (hang: %v); alone it is answered %.600s",
+						b.cfg.Name, d.Round, batch[d.Index].Variables["reps"], got, d.Hang, want),
+					Replay: map[string]any{"config": b.cfg.Name, "requests": batch, "round": d.Round, "index": d.Index}})
+			}
+			meta.Notes = append(meta.Notes, fmt.Sprintf("config %s: %d executions of 16 _entities requests at the same time on one executable schema (%d rounds), each compared with its own sequential run", b.cfg.Name, bres[0].BatchRuns, rounds))
+		}
 		for k, res := range results {
 			d := keep[k]
 			if res.Crashed || res.Hang || len(res.Responses) == 0 {
